@@ -254,8 +254,41 @@ def prop_final(case):
                                      % (sk_dd, h2, phiS_dd, e2)))
         except Exception as e:
             fails.append(Failure('Attack_rate:default-phiS0:exception:%s' % exc_signature(e), 'raised %r' % (e,)))
+    # ---- small-rho limit (rho omitted): the returned value is the largest-epidemic root of theta = 1-T + T psi'(theta)/<k>, found here by
+    #      bracketing (brentq) instead of fixed-point sweeps; a generous number_its lets the sweeps converge even close to the threshold ----
+    classes_extra = []
+    if not fails and len(Pk) >= 1 and ic.kave > 0:
+        try:
+            from scipy.optimize import brentq
+            kave = sum(k * Pk[k] for k in Pk)
+
+            def root_attack(T):
+                psi_ = lambda x: sum(Pk[k] * x ** k for k in Pk)
+                psip_ = lambda x: sum(k * Pk[k] * x ** (k - 1) for k in Pk if k >= 1)
+                h = lambda x: x - (1 - T + T * psip_(x) / kave)
+                R0_ = T * sum(k * (k - 1) * Pk[k] for k in Pk) / kave
+                if R0_ <= 1 + 1e-9:
+                    return None, R0_
+                hi = 1 - 1e-7
+                if h(0.0) >= 0 or h(hi) <= 0:
+                    return None, R0_
+                return 1 - psi_(brentq(h, 0.0, hi, xtol=1e-15, rtol=1e-15, maxiter=500)), R0_
+            for nm, T, call in (('Attack_rate_discrete', p, lambda its: EoN.Attack_rate_discrete(Pk, p, number_its=its)),
+                                ('Attack_rate_cts_time', tau / (tau + gamma), lambda its: EoN.Attack_rate_cts_time(Pk, tau, gamma, number_its=its))):
+                want, R0_ = root_attack(T)
+                if want is None:
+                    continue
+                its = 4000 if R0_ > 1.2 else 60000
+                got_a, got_b = call(its), call(2 * its)
+                if R0_ < 1.2:
+                    classes_extra.append('near-threshold')
+                if abs(got_a - got_b) <= 1e-9 and abs(got_b - want) > 1e-6:
+                    fails.append(Failure('%s:small-rho-limit' % nm, '%s(rho omitted, number_its=%d) = %.9g; the epidemic root of the final-size relation gives %.9g (R0=%.4g, Pk=%r)'
+                                         % (nm, 2 * its, got_b, want, R0_, Pk)))
+        except Exception as e:
+            fails.append(Failure('Attack_rate:small-rho-limit:exception:%s' % exc_signature(e), 'raised %r' % (e,)))
     ar = locals().get('ar2', 0)
-    return Result(fails, nontrivial=0.02 < ar < 0.98, classes=['mode=' + case['mode']] + (['inconclusive'] if incon else []), inconclusive=incon)
+    return Result(fails, nontrivial=0.02 < ar < 0.98, classes=['mode=' + case['mode']] + sorted(set(classes_extra)) + (['inconclusive'] if incon else []), inconclusive=incon)
 
 
 # ---------------------------------------------------------------------------
